@@ -363,10 +363,11 @@ func (p *Prog) SourcesStop(v ssa.Value, stop func(ssa.Value) bool) []ssa.Value {
 }
 
 type tracer struct {
-	p    *Prog
-	seen map[ssa.Value]bool
-	out  []ssa.Value
-	stop func(ssa.Value) bool
+	p        *Prog
+	seen     map[ssa.Value]bool
+	seenElem map[elemKey]bool
+	out      []ssa.Value
+	stop     func(ssa.Value) bool
 }
 
 func (t *tracer) leaf(v ssa.Value) { t.out = append(t.out, v) }
@@ -550,11 +551,103 @@ func (t *tracer) load(u *ssa.UnOp, addr ssa.Value) {
 		for _, st := range stores {
 			t.walk(st.Val)
 		}
+	case *ssa.IndexAddr:
+		if !t.elements(a.X, 0) {
+			t.leaf(u)
+		}
 	default:
 		if !t.loadFromOK(addr) {
 			t.leaf(u)
 		}
 	}
+}
+
+// elements traces the values stored into the slice/array value s by append
+// calls and element stores; false when s has an origin it cannot see through.
+func (t *tracer) elements(s ssa.Value, depth int) bool {
+	if depth > 8 {
+		return false
+	}
+	key := elemKey{s}
+	if t.seenElem == nil {
+		t.seenElem = map[elemKey]bool{}
+	}
+	if t.seenElem[key] {
+		return true
+	}
+	t.seenElem[key] = true
+	switch x := s.(type) {
+	case *ssa.Phi:
+		for _, e := range x.Edges {
+			if !t.elements(e, depth+1) {
+				return false
+			}
+		}
+		return true
+	case *ssa.Const:
+		return true // nil slice: no elements
+	case *ssa.MakeSlice:
+		// elements written through IndexAddr on this slice
+		return t.elemStores(x)
+	case *ssa.Slice:
+		if al, ok := x.X.(*ssa.Alloc); ok {
+			return t.elemStores(al)
+		}
+		return t.elements(x.X, depth+1)
+	case *ssa.Call:
+		if b, ok := x.Call.Value.(*ssa.Builtin); ok && b.Name() == "append" {
+			if !t.elements(x.Call.Args[0], depth+1) {
+				return false
+			}
+			if len(x.Call.Args) > 1 {
+				return t.elements(x.Call.Args[1], depth+1)
+			}
+			return true
+		}
+		return false
+	case *ssa.UnOp:
+		if x.Op == token.MUL {
+			if al, ok := x.X.(*ssa.Alloc); ok {
+				// a slice variable spilled to a cell
+				sts := CellStores(al)
+				if len(sts) == 0 {
+					return false
+				}
+				for _, st := range sts {
+					if !t.elements(st.Val, depth+1) {
+						return false
+					}
+				}
+				return true
+			}
+		}
+		return false
+	}
+	return false
+}
+
+type elemKey struct{ v ssa.Value }
+
+// elemStores walks values stored through IndexAddr on base.
+func (t *tracer) elemStores(base ssa.Value) bool {
+	refs := base.Referrers()
+	if refs == nil {
+		return true
+	}
+	for _, r := range *refs {
+		if ia, ok := r.(*ssa.IndexAddr); ok && ia.X == base {
+			for _, r2 := range *ia.Referrers() {
+				if st, ok := r2.(*ssa.Store); ok && st.Addr == ssa.Value(ia) {
+					t.walk(st.Val)
+				}
+			}
+		}
+		if sl, ok := r.(*ssa.Slice); ok && sl.X == base {
+			// stores through a re-slice of the same backing array are not followed; elements already collected
+			_ = sl
+		}
+	}
+	return true
 }
 
 func (t *tracer) loadFrom(addr ssa.Value) {
@@ -1063,7 +1156,9 @@ func ReturnResult(r *ssa.Return, i int) ssa.Value {
 }
 
 // NormCell maps reloads of one (captured) variable to one representative, and
-// a variable assigned exactly once to the value assigned.
+// a load of a variable to the value assigned when exactly one assignment can
+// reach the load (single assignment, or a dominating assignment with no other
+// assignment able to reach the load).
 func NormCell(v ssa.Value) ssa.Value {
 	for i := 0; i < 8; i++ {
 		u, ok := v.(*ssa.UnOp)
@@ -1080,15 +1175,74 @@ func NormCell(v ssa.Value) ssa.Value {
 		}
 		al, ok := cell.(*ssa.Alloc)
 		if !ok {
-			return cell
+			if cell != u.X {
+				return cell
+			}
+			return v
 		}
 		sts := CellStores(al)
-		if len(sts) != 1 {
-			return al
+		if len(sts) == 1 {
+			v = sts[0].Val
+			continue
 		}
-		v = sts[0].Val
+		// several assignments: those that can reach this load
+		var reaching []*ssa.Store
+		for _, st := range sts {
+			if st.Parent() != u.Parent() {
+				reaching = append(reaching, st) // assigned in a closure: cannot order
+				continue
+			}
+			if st.Block() == u.Block() {
+				if indexOf(st) < indexOf(u) {
+					reaching = append(reaching, st)
+				} else if InCycle(u.Block()) {
+					reaching = append(reaching, st)
+				}
+				continue
+			}
+			if blockReaches(st.Block(), u.Block()) {
+				reaching = append(reaching, st)
+			}
+		}
+		// keep only the last store of the load's own block when there is one
+		var sameBlock *ssa.Store
+		for _, st := range reaching {
+			if st.Parent() == u.Parent() && st.Block() == u.Block() && indexOf(st) < indexOf(u) {
+				if sameBlock == nil || indexOf(st) > indexOf(sameBlock) {
+					sameBlock = st
+				}
+			}
+		}
+		if sameBlock != nil {
+			v = sameBlock.Val
+			continue
+		}
+		if len(reaching) == 1 && reaching[0].Parent() == u.Parent() && InstrDominates(reaching[0], u) {
+			v = reaching[0].Val
+			continue
+		}
+		return al
 	}
 	return v
+}
+
+func blockReaches(from, to *ssa.BasicBlock) bool {
+	seen := map[*ssa.BasicBlock]bool{}
+	stack := []*ssa.BasicBlock{from}
+	for len(stack) > 0 {
+		b := stack[len(stack)-1]
+		stack = stack[:len(stack)-1]
+		for _, s := range b.Succs {
+			if s == to {
+				return true
+			}
+			if !seen[s] {
+				seen[s] = true
+				stack = append(stack, s)
+			}
+		}
+	}
+	return false
 }
 
 func bindingOf(fv *ssa.FreeVar) ssa.Value {
